@@ -162,6 +162,16 @@ class Engine:
             fsa.FSA.__init__.__defaults__ = ({}, [], True)
             self.dirty_defaults = True
         simfs.DISK.reset()
+        # memoised functions in the automata modules would make a run depend on its predecessors
+        from geometry_tools.automata import gap_parse, kbmag_utils
+        for mod in (fsa, gap_parse, kbmag_utils):
+            for name, obj in list(vars(mod).items()):
+                cc = getattr(obj, "cache_clear", None)
+                if callable(cc):
+                    try:
+                        cc()
+                    except Exception:
+                        pass
 
     # ------------------------------------------------------------------ helpers
     def universe(self, cfg):
@@ -365,6 +375,8 @@ class Engine:
         table = self._gen_table(rng, cfg)
         layout = self._gen_layout(rng)
         fn = "f%d.wa" % (len(world.files) + 1 + world.steps_done * 10)
+        if world.files and rng.random() < 0.25:
+            fn = rng.choice(sorted(world.files))       # the caller overwrites a file it wrote earlier
         return {"op": "write_file", "file": fn, "table": table, "layout": layout}
 
     def _gen_mutate(self, rng, world):
@@ -670,6 +682,8 @@ class Engine:
     def _do_write_file(self, world, op, vs):
         text = simfs.kbmag_text(op["table"], op["layout"])
         data = text.encode("utf-8")
+        if op["file"] in world.files:
+            world.stats["probe.file_overwritten"] += 1
         simfs.DISK.write_file(op["file"], data)
         world.files[op["file"]] = (op["table"], len(data))
         return "ok"
